@@ -46,6 +46,7 @@ func runC16(c *Config, r *Report) {
 	c16R7(ic, r)
 	c16R5(ic, r)
 	noProcessWideMemo(ic, r, "R16.8")
+	c16R9(ic, r)
 }
 
 func c16R1(ic *IC, r *Report) {
@@ -866,4 +867,69 @@ func c16R7(ic *IC, r *Report) {
 	if n == 0 {
 		r.Errorf("R16.7: no lookup in Interpreter.srcPkg found in importSrc")
 	}
+}
+
+func init() {
+	ruleText["R16.9"] = "a package is marked 'being imported' only while importSrc works on it: the removal of the mark (a deferred delete of Interpreter.rdir[importPath]) is registered right after the mark is set - no return statement lies between the store rdir[importPath] = true and the defer - so a failed import (package not found, unreadable directory) never leaves the mark behind for the next importer to take for an import cycle"
+}
+
+// c16R9: round-7 seed. The cycle test and the mark were moved before the resolution of the
+// directory, the deferred removal stayed after it: an import that failed to locate its package
+// left it marked, and the next importer that could see it got "import cycle not allowed".
+func c16R9(ic *IC, r *Report) {
+	info := ic.Info
+	fi := ic.fn(r, "Interpreter.importSrc")
+	if fi == nil {
+		return
+	}
+	rdir := ic.field("Interpreter", "rdir")
+	var store *ast.AssignStmt
+	var unmark *ast.DeferStmt
+	ast.Inspect(fi.Decl.Body, func(q ast.Node) bool {
+		switch y := q.(type) {
+		case *ast.AssignStmt:
+			for _, l := range y.Lhs {
+				if ix, ok := unparen(l).(*ast.IndexExpr); ok && selField(info, ix.X) == rdir && store == nil {
+					store = y
+				}
+			}
+		case *ast.DeferStmt:
+			del := false
+			ast.Inspect(y.Call, func(z ast.Node) bool {
+				if c, ok := z.(*ast.CallExpr); ok {
+					if id := identOf(c.Fun); id != nil && id.Name == "delete" && len(c.Args) == 2 && selField(info, c.Args[0]) == rdir {
+						del = true
+					}
+				}
+				return true
+			})
+			if del && unmark == nil {
+				unmark = y
+			}
+		}
+		return true
+	})
+	if store == nil {
+		r.Errorf("R16.9: the store into Interpreter.rdir was not found in importSrc")
+		return
+	}
+	why := ""
+	switch {
+	case unmark == nil:
+		why = "no deferred delete of the mark is registered"
+	case unmark.Pos() < store.Pos():
+		// registered before the mark is set: fine as well (it runs on every exit)
+	default:
+		ast.Inspect(fi.Decl.Body, func(q ast.Node) bool {
+			if _, ok := q.(*ast.FuncLit); ok {
+				return false
+			}
+			if rs, ok := q.(*ast.ReturnStmt); ok && rs.Pos() > store.End() && rs.Pos() < unmark.Pos() {
+				why = "the return at " + ic.pos(rs.Pos()) + " lies between the mark (" + ic.pos(store.Pos()) + ") and the registration of its removal (" + ic.pos(unmark.Pos()) + ")"
+			}
+			return true
+		})
+	}
+	r.Check(why == "", "R16.9", "importSrc/mark-removed-on-every-exit", ic.pos(store.Pos()), "the removal of the mark is registered right after the mark",
+		"importSrc can leave a package marked as being imported: "+why+". The next import of that package - by an importer that can locate it, through its own vendor directory for instance - is rejected with 'import cycle not allowed' although nothing is being imported")
 }
